@@ -6,6 +6,7 @@ reading: `adaptNodes_fresh`, `consolidate_preserves_behaviour`, `site_behaves_as
 -/
 import CaddyModel.C05.Adapt
 import CaddyModel.C05.Lemmas
+import CaddyModel.Gen.RouteCompile
 
 namespace CaddyModel.C05
 
@@ -1169,5 +1170,32 @@ theorem site_error_reaches_other_sites_handle_errors_observation :
     (adaptSites [⟨some 0, [.respond 1404], []⟩]).map
         (fun x => (serve x.1 x.2.1 x.2.2 ⟨0, 0, 1, 0, [], none, none, 1, []⟩).status)
       = some (some 404) := by decide
+
+/-! ### second line of defence: the call sites, read off the source on every run -/
+
+/-- **who compiles a route list, and with which rest-of-chain** (regenerated from the source by
+    tools/extract on every run): exactly these seven call sites — the server's two chains ending in
+    the empty / error-empty handler (`serve`), the subroute's routes in front of the wrapped `next`
+    and its error routes in front of `next` (`runHandler (.sub …)`), a named route (`inlineH`), and
+    the two response-handler callers (`serveIntercepted`; reverse_proxy shares the type).  A new
+    caller, or a different continuation, breaks this obligation before any test runs. -/
+theorem route_compile_call_sites_match_source :
+    Gen.routeCompileCalls =
+      [ ("modules/caddyhttp/app.go:Provision", "srv.Routes", "emptyHandler"),
+        ("modules/caddyhttp/app.go:Provision", "srv.Errors.Routes", "errorEmptyHandler"),
+        ("modules/caddyhttp/intercept/intercept.go:ServeHTTP", "rec.handler.Routes", "next"),
+        ("modules/caddyhttp/invoke.go:ServeHTTP", "route", "next"),
+        ("modules/caddyhttp/reverseproxy/reverseproxy.go:reverseProxy", "rh.Routes", "next"),
+        ("modules/caddyhttp/subroute.go:ServeHTTP", "sr.Routes", "HandlerFunc(func literal)"),
+        ("modules/caddyhttp/subroute.go:ServeHTTP", "sr.Errors.Routes", "next") ] := by decide
+
+/-- the one `Terminal:` the Caddyfile adapter writes is the site wrapper's `true` — and the model's
+    wrapper is terminal -/
+theorem site_wrapper_terminal_matches_source :
+    Gen.adapterTerminalLiterals = [("caddyconfig/httpcaddyfile/httptype.go:appendSubrouteToRouteList", "true")] ∧
+    wrapSite (some 0) [.mk 0 [] [] false] = [.mk 0 [[.atom .host [0]]] [.sub [.mk 0 [] [] false] false []] true] := by
+  constructor
+  · decide
+  · rfl
 
 end CaddyModel.C05
